@@ -573,10 +573,12 @@ Fixpoint size_instr (i : instr) : nat :=
   end.
 Definition size_prog (l : list instr) : nat := fold_right (fun i n => size_instr i + n) 0 l.
 
-Inductive coarse := CStart (r : rid) | CFire (r : rid) (g : nat) | CRun (r : rid) | CFinish (r : rid).
+Inductive coarse :=
+| CStart (r : rid) | CFire (r : rid) (g : nat) | CRun (r : rid) | CFinish (r : rid)
+| CCreate (r : rid).      (* build_response only: the root owner exists, nothing has been polled yet *)
 
 Definition coarse_req (a : coarse) : rid :=
-  match a with CStart r | CFire r _ | CRun r | CFinish r => r end.
+  match a with CStart r | CFire r _ | CRun r | CFinish r | CCreate r => r end.
 
 Definition rounds_for (r : rid) (c : cfg) : nat := S (S (size_prog (q_prog (get_req r (c_w c))))).
 
@@ -590,6 +592,7 @@ Definition apply_coarse (sb : bool) (a : coarse) (c : cfg) : cfg :=
   let q := get_req (coarse_req a) (c_w c) in
   match a with
   | CStart r => if q_started q then c else poll_task sb r 0 (start sb r c)
+  | CCreate r => if q_started q then c else start sb r c
   | CFire r g =>
       if q_started q && Nat.ltb g (q_ngates q) && negb (existsb (Nat.eqb g) (q_fired q))
       then upd_req r (add_fired g) c else c
